@@ -56,7 +56,9 @@ pub fn gen_case(seed: u64, idx: u64, big: bool) -> Case {
         k,
         segment_size,
         min_match_len,
-        pack_size: 50,
+        // pack cardinality (-l): the default almost always, other values so that a reader/writer
+        // disagreement about it shows (more likely with many samples: groups with > N deltas)
+        pack_size: if n_samples >= 12 && rng.chance(1, 2) { *rng.pick(&[10usize, 20, 100]) } else { *rng.pick(&[50usize, 50, 50, 50, 20, 100, 7]) },
         threads,
         queue_capacity: if rng.chance(1, 4) { 1 << 20 } else { 2 << 30 },
         fallback_frac,
